@@ -51,6 +51,22 @@ def exact_bound(dims, is_op):
     return [min(int(np.prod(d[:i])), int(np.prod(d[i:]))) for i in range(n + 1)]
 
 
+def schmidt_ranks(v, dims, is_op):
+    """exact Schmidt ranks of the dense vector / operator across every bond (independent of the chain representation)"""
+    n = len(dims)
+    if is_op:
+        t = np.asarray(v).reshape(list(dims) + list(dims))
+        t = t.transpose([x for i in range(n) for x in (i, n + i)]).reshape([d * d for d in dims])
+    else:
+        t = np.asarray(v).reshape(dims)
+    sz = list(t.shape)
+    out = []
+    for k in range(1, n):
+        sv = np.linalg.svd(t.reshape(int(np.prod(sz[:k])), -1), compute_uv=False)
+        out.append(max(1, int(np.sum(sv > 1e-10 * max(sv[0], 1e-300)))))
+    return out
+
+
 def worker(case, led):
     name, n, seed, tier = case
     rng = np.random.default_rng([seed, n, 404, sum(map(ord, name))])
@@ -133,6 +149,20 @@ def worker(case, led):
                               f"dense changed or bonds grew {bd1}->{list(cc.bond_dims)}", key + ("compress",), fields, rep)
                 except Exception as e:
                     led.check(False, "post:MatrixProduct.compress:total", "MatrixProduct.compress", f"raised {e!r}", key + ("compress",), fields, rep)
+                # per-bond limits (list form of temp_m_trunc) equal to the exact Schmidt ranks: lossless in both sweep directions, and tight
+                ranks = schmidt_ranks(v0, dims, is_op)
+                limits = [1] + ranks + [1]
+                cl = c1.copy()
+                cl.compress_config = CompressConfig(CompressCriteria.fixed, max_bonddim=10 ** 4)
+                try:
+                    for sweep in (1, 2):
+                        cl.compress(temp_m_trunc=list(limits))
+                        led.check(close(S.dense(cl), v0) and all(x <= y for x, y in zip(cl.bond_dims, limits)) and not S.qnv_violations(cl),
+                                  "post:MatrixProduct.compress:per_bond_limits_at_schmidt_rank_lossless", "MatrixProduct.compress",
+                                  f"sweep {sweep} ({'->' if not cl.to_right else '<-'} just done): limits {limits} gave bonds {list(cl.bond_dims)}, "
+                                  f"error {np.abs(S.dense(cl) - v0).max():.2e}", key + ("compress-list", sweep), fields, dict(rep, temp_m_trunc=limits, sweep=sweep))
+                except Exception as e:
+                    led.check(False, "post:MatrixProduct.compress:total", "MatrixProduct.compress", f"list limits raised {e!r}", key + ("compress-list",), fields, rep)
             # ---- ensure_* from any centre
             for k in range(n):
                 ce = st0.copy()
@@ -176,6 +206,7 @@ def worker(case, led):
 def check(run):
     from props import C04_proof
     C04_proof.prove(run)
+    C04_proof.prove_compress_slice(run)
     seeds = [run.seed] if run.tier == "quick" else [run.seed, run.seed + 1]
     ns = [1, 2, 3, 4] if run.tier == "quick" else [1, 2, 3, 4, 5]
     cases = [(name, n, s, run.tier) for name in ("spin", "spinqn", "spin2qn", "holstein", "multi") for n in ns for s in seeds
